@@ -89,6 +89,23 @@ def step (line : String) : String :=
       | some fs => toHex (Cppcheck.Sarif.sarifDefault ver fs)
       | none => "bad-op"
     | _, _ => "bad-op"
+  | "std" :: vb :: tf :: tl :: n :: r =>
+    -- StdLogger duplicate filter keyed by the text rendering: indices of the findings handed to the writer
+    match fromHex tf, fromHex tl, n.toNat? with
+    | some tf, some tl, some n =>
+      match parseFindings n r with
+      | some fs =>
+        let render := fun f => Cppcheck.Template.toString noSrc f (vb == "1") tf tl
+        let kept := Cppcheck.Template.stdLogger render fs
+        -- findings are compared structurally; report positions (first occurrence of each kept finding, in order)
+        let rec pos (ks : List Finding) (all : List Finding) (i : Nat) : List Nat :=
+          match ks, all with
+          | [], _ => []
+          | _, [] => []
+          | k :: kr, a :: ar => if k == a then i :: pos kr ar (i + 1) else pos (k :: kr) ar (i + 1)
+        " ".intercalate ((pos kept fs 0).map toString) ++ " |" ++ String.join (kept.map fun f => " " ++ toHex (render f))
+      | none => "bad-op"
+    | _, _, _ => "bad-op"
   | ["crit"] => " ".intercalate Cppcheck.Sarif.criticalIds
   | _ => "bad-op"
 
